@@ -502,6 +502,33 @@ def r5(ctx: Ctx) -> RuleReport:
                               'NoOpModel.deinvert is bypassed, so the no-op model deinverts although it is documented not to')
             elif 'Model.invert_role' in names:
                 rep.violation(key, f.loc(call), 'interpretation rewrites a role with invert_role, bypassing Model.deinvert')
+    # the edge to a NESTED node reaches the hook whatever the variable set says: the empty node "()" has the variable None, which Tree.nodes() leaves out
+    from ..resolve import facts_ex as _fx5
+    inode = ctx.repo.maybe_func(L, '_interpret_node')
+    if inode is not None:
+        for call, ts in ctx.cg.calls_in(inode):
+            hs = [t.func for t in ts if t.kind == 'func' and t.func.module.name == L and t.func.fq != inode.fq]
+            if len(hs) != 1 or not call.args:
+                continue
+            h = hs[0]
+            a0 = call.args[0]
+            nested = isinstance(a0, ast.Tuple) and len(a0.elts) == 3 and isinstance(a0.elts[2], ast.Subscript) and try_fold(a0.elts[2].slice) == (True, 0) \
+                and (f'is_atomic({norm(a0.elts[2].value)})', False) in _fx5(ctx, inode, call)
+            if not nested or not h.positional:
+                continue
+            pn = h.positional[0]
+            slot2 = {f'{pn}[2]'} | {norm(n_.targets[0].elts[2]) for n_ in walk_local(h.node) if isinstance(n_, ast.Assign) and isinstance(n_.targets[0], ast.Tuple)
+                                      and len(n_.targets[0].elts) == 3 and norm(n_.value) == pn}
+            for c2, ts2 in ctx.cg.calls_in(h):
+                if any(t.kind == 'func' and t.func.qualname.endswith('.deinvert') for t in ts2):
+                    guard = next((f for f, pol in _fx5(ctx, h, c2) if pol and any(f.startswith(f'{x} in ') for x in slot2)), None)
+                    key = f'{inode.fq}: the edge to a nested node is handed to Model.deinvert unconditionally'
+                    if guard:
+                        rep.violation(key, inode.loc(call), f'`{norm(call)[:50]}` sends the edge to a nested node through {h.qualname}, which calls Model.deinvert only when `{guard}`. '
+                                      f'The variable of a nested node is not always in that set: the empty node "()" has the variable None, and Tree.nodes() leaves it out - '
+                                      f'"(a :ARG0-of ())" then keeps the triple (a :ARG0-of None) instead of (None :ARG0 a), as if the node were a constant')
+                    else:
+                        rep.ok(key, inode.loc(call))
     # neither direction of the layout ever canonicalises a role: normalisations (AMR :mod-of -> :domain) denote another triple
     for root2 in (ctx.repo.func(L, 'interpret'), ctx.repo.func(L, 'configure'), ctx.repo.func(L, 'reconfigure')):
         for f in [x for x in ctx.cg.reachable([root2]) if x.module.name == L]:
@@ -2004,6 +2031,60 @@ def _branch_role_names(fi: FuncInfo, loop_or_gen) -> Set[str]:
 def r138(ctx: Ctx) -> RuleReport:
     from ..cfg import reaching_defs
     rep = RuleReport('R138', r138.title, floor=2)
+    cache: Dict[str, tuple] = {}
+
+    def flow(fi: FuncInfo):
+        if fi.fq not in cache:
+            cfg = CFG(fi.node)
+            cache[fi.fq] = (cfg, reaching_defs(cfg, fi.params), ctx.repo.parent_map(fi.node))
+        return cache[fi.fq]
+
+    def status(fi: FuncInfo, r: str, at: ast.AST, depth: int = 0):
+        """('raw', evidence) | ('stripped', evidence) | None for the name r read at the expression `at` of fi"""
+        cfg, rd, pm = flow(fi)
+        try:
+            nid = owner_node(cfg, pm, at)
+        except AnalysisError:
+            return None
+        defs = rd.get(nid, {}).get(r, frozenset())
+        raw, stripped, via_param = [], [], []
+        for d in defs:
+            nd = cfg.nodes[d]
+            if nd.kind == 'for' and r in _branch_role_names(fi, nd.ast):
+                raw.append(nd)
+            elif nd.kind == 'stmt' and isinstance(nd.ast, ast.Assign) and isinstance(nd.ast.value, ast.Call) and (
+                    norm(nd.ast.value.func) == '_process_role' or (isinstance(nd.ast.value.func, ast.Attribute) and nd.ast.value.func.attr in ('partition', 'split', 'rpartition')
+                                                                    and nd.ast.value.args and try_fold(nd.ast.value.args[0]) == (True, '~'))):
+                stripped.append(nd)
+            elif nd.kind == 'stmt' and isinstance(nd.ast, ast.Assign) and isinstance(nd.ast.targets[0], ast.Tuple) and len(nd.ast.targets[0].elts) == 3 \
+                    and isinstance(nd.ast.value, ast.Name) and nd.ast.value.id in fi.positional and norm(nd.ast.targets[0].elts[1]) == r:
+                via_param.append(nd.ast.value.id)              # _, role, target = triple   (triple is a parameter)
+        if raw:
+            # a role that has been tested to contain no "~" needs no stripping: `elif '~' in role: role, _, aln = role.partition('~')`
+            tilde_conds = {nd.id for nd in cfg.nodes if nd.kind == 'cond' and norm(nd.ast) in (f"'~' in {r}", f"'~' not in {r}")}
+            strip_nodes = {nd.id for nd in cfg.nodes if nd.kind == 'stmt' and isinstance(nd.ast, ast.Assign) and r in assigned_names(nd.ast)}
+            if tilde_conds and all(cfg.path_avoiding([(rn.id, 'T')], {nid}, lambda nd: nd.id in tilde_conds or nd.id in strip_nodes) is None for rn in raw):
+                return ('stripped', f'{r} is split at "~" whenever it contains one')
+            return ('raw', f'bound by `{norm(raw[0].ast).splitlines()[0][:50]}`')
+        if stripped and len(stripped) == len(defs):
+            return ('stripped', f'{r} comes from {norm(stripped[0].ast)[:50]}')
+        if via_param and len(via_param) == len(defs) and depth < 2:
+            # the triple is built by the callers: (var, role, target) with their own role
+            outs = []
+            for cfi, call in ctx.cg.callers.get(fi.fq, []):
+                idx = fi.positional.index(via_param[0])
+                a = call.args[idx] if idx < len(call.args) else next((k.value for k in call.keywords if k.arg == via_param[0]), None)
+                if isinstance(a, ast.Name):
+                    vals = [v_ for v_ in ctx.cg.local_assigns(cfi).get(a.id, []) if isinstance(v_, ast.AST)]
+                    a = vals[0] if len(vals) == 1 else a
+                if isinstance(a, ast.Tuple) and len(a.elts) == 3 and isinstance(a.elts[1], ast.Name):
+                    outs.append(status(cfi, a.elts[1].id, call, depth + 1))
+                else:
+                    outs.append(None)
+            if outs and all(o is not None for o in outs):
+                bad = [o for o in outs if o[0] == 'raw']
+                return bad[0] if bad else ('stripped', f'in every caller: {outs[0][1]}')
+        return None
     for mod in ('penman.layout', 'penman.transform', 'penman.tree', 'penman._format'):
         m = ctx.repo.module(mod)
         for fi in [f for f in ctx.repo.all_functions() if f.module is m]:
@@ -2012,7 +2093,6 @@ def r138(ctx: Ctx) -> RuleReport:
             if not calls:
                 continue
             pm = ctx.repo.parent_map(fi.node)
-            cfg = rd = None
             for c in calls:
                 r = c.args[0].id
                 key = f'{fi.fq}: {norm(c)[:50]} is asked about a role without its alignment suffix'
@@ -2030,35 +2110,13 @@ def r138(ctx: Ctx) -> RuleReport:
                                   f'":ARG1-of~e.3" the model answers for a role that does not end in -of. The inverted edge is not recognised: it is not deinverted and is '
                                   f'reported as an attribute ("(a / alpha :ARG0 (b / beta) :ARG1-of~e.3 b)" keeps the triple (a :ARG1-of b))')
                     continue
-                if cfg is None:
-                    cfg = CFG(fi.node)
-                    rd = reaching_defs(cfg, fi.params)
-                st = x
-                try:
-                    nid = owner_node(cfg, pm, c)
-                except AnalysisError:
+                st = status(fi, r, c)
+                if st is None:
                     continue
-                defs = rd.get(nid, {}).get(r, frozenset())
-                raw, stripped = [], []
-                for d in defs:
-                    nd = cfg.nodes[d]
-                    if nd.kind == 'for' and r in _branch_role_names(fi, nd.ast):
-                        raw.append(nd)
-                    elif nd.kind == 'stmt' and isinstance(nd.ast, ast.Assign) and isinstance(nd.ast.value, ast.Call) and (
-                            norm(nd.ast.value.func) == '_process_role' or (isinstance(nd.ast.value.func, ast.Attribute) and nd.ast.value.func.attr in ('partition', 'split', 'rpartition')
-                                                                            and nd.ast.value.args and try_fold(nd.ast.value.args[0]) == (True, '~'))):
-                        stripped.append(nd)
-                if raw:
-                    # a role that has been tested to contain no "~" needs no stripping: `elif '~' in role: role, _, aln = role.partition('~')`
-                    tilde_conds = {nd.id for nd in cfg.nodes if nd.kind == 'cond' and norm(nd.ast) in (f"'~' in {r}", f"'~' not in {r}")}
-                    strip_nodes = {nd.id for nd in cfg.nodes if nd.kind == 'stmt' and isinstance(nd.ast, ast.Assign) and r in assigned_names(nd.ast)}
-                    if tilde_conds and all(cfg.path_avoiding([(rn.id, 'T')], {nid}, lambda nd: nd.id in tilde_conds or nd.id in strip_nodes) is None for rn in raw):
-                        rep.ok(key, fi.loc(c), f'{r} is split at "~" whenever it contains one')
-                        continue
-                if raw:
-                    rep.violation(key, fi.loc(c), f'`{r}` can still be the role exactly as the branch holds it (bound by `{norm(raw[0].ast).splitlines()[0][:50]}`, not yet passed through '
+                if st[0] == 'raw':
+                    rep.violation(key, fi.loc(c), f'`{r}` can still be the role exactly as the branch holds it ({st[1]}, not yet passed through '
                                   f'_process_role / partition("~")): a role alignment is still attached, so for ":ARG1-of~e.3" the model answers for a role that does not end in -of. '
                                   f'The inverted edge is not recognised: it is not deinverted and is reported as an attribute')
-                elif stripped and len(stripped) == len(defs):
-                    rep.ok(key, fi.loc(c), f'{r} comes from {norm(stripped[0].ast)[:50]}')
+                else:
+                    rep.ok(key, fi.loc(c), st[1])
     return rep
